@@ -3,7 +3,8 @@
 // Abstract syntax of the C06 op lines and the bridge between it and real
 // miekg messages / raw packets.
 //
-//	Q:<id>:<opcode>:<flags>:<qtype>:<qlen>:<opt>
+//	Q:<id>[~<mask>]:<opcode>:<flags>:<qtype>:<qlen>:<opt>
+//	    mask    0x20 spelling of the question name (bit i upper-cases its i-th letter)
 //	    flags   subset of r(RD) a(AD) c(CD), "-" for none
 //	    qlen    wire length of the question section (name + 4), checked
 //	    opt     "-" | <udp>/<do t|f>/<version>/<options>
@@ -51,6 +52,7 @@ type aOpt struct {
 }
 
 type aQ struct {
+	mask       int // 0x20 spelling: bit i upper-cases the i-th letter of the question name
 	id, opcode int
 	rd, ad, cd bool
 	qtype      int
@@ -110,6 +112,9 @@ func letters(pairs ...any) string {
 }
 
 func (q aQ) String() string {
+	if q.mask != 0 {
+		return fmt.Sprintf("Q:%d~%d:%d:%s:%d:%d:%s", q.id, q.mask, q.opcode, letters("r", q.rd, "a", q.ad, "c", q.cd), q.qtype, q.qlen, q.opt)
+	}
 	return fmt.Sprintf("Q:%d:%d:%s:%d:%d:%s", q.id, q.opcode, letters("r", q.rd, "a", q.ad, "c", q.cd), q.qtype, q.qlen, q.opt)
 }
 
@@ -167,7 +172,12 @@ func parseQ(s string) aQ {
 	if len(f) != 7 || f[0] != "Q" {
 		panic("bad Q " + s)
 	}
-	return aQ{id: vlib.Atoi(f[1]), opcode: vlib.Atoi(f[2]),
+	idS, maskS, _ := strings.Cut(f[1], "~")
+	mask := 0
+	if maskS != "" {
+		mask = vlib.Atoi(maskS)
+	}
+	return aQ{id: vlib.Atoi(idS), mask: mask, opcode: vlib.Atoi(f[2]),
 		rd: strings.Contains(f[3], "r"), ad: strings.Contains(f[3], "a"), cd: strings.Contains(f[3], "c"),
 		qtype: vlib.Atoi(f[4]), qlen: vlib.Atoi(f[5]), opt: parseOpt(f[6])}
 }
@@ -207,6 +217,21 @@ func parseR(s string) aR {
 const zone = "c06.test."
 
 func qnameOf(id int) string { return fmt.Sprintf("q%d.%s", id, zone) }
+
+// spell applies a 0x20 mask to a name: bit i upper-cases its i-th letter.
+func spell(name string, mask int) string {
+	b := []byte(name)
+	k := 0
+	for i, c := range b {
+		if c >= 'a' && c <= 'z' {
+			if mask&(1<<uint(k)) != 0 {
+				b[i] = c - 32
+			}
+			k++
+		}
+	}
+	return string(b)
+}
 
 func wireName(name string) []byte {
 	var b []byte
@@ -259,7 +284,7 @@ func rawQuery(q aQ) []byte {
 	}
 	b = append(b, 0, 1, 0, 0, 0, 0)
 	b = binary.BigEndian.AppendUint16(b, ar)
-	b = append(b, wireName(qnameOf(q.id))...)
+	b = append(b, wireName(spell(qnameOf(q.id), q.mask))...)
 	b = binary.BigEndian.AppendUint16(b, uint16(q.qtype))
 	b = append(b, 0, 1)
 	if q.opt.present {
